@@ -95,8 +95,11 @@ func (s *CDCStreamer) CommitHook() bool {
 	default:
 		stats.Add(cdcDroppedEvents, 1)
 	}
+	// A single log entry can result in more than one commit (a multi-statement
+	// request that is not wrapped in a transaction), so carry the index over.
 	s.pending = &command.CDCIndexedEventGroup{
 		Events: make([]*command.CDCEvent, 0),
+		Index:  s.pending.Index,
 	}
 	return true
 }
